@@ -37,10 +37,12 @@ RULE = ("Hypothesis-generated memories (0-12 episodes, 1 in 20 cases 70-140 epis
         "labels, slice cap t2_k, residual cap; sequential, sharded and embed-store reader paths. Non-trivial = (>=2 "
         "owners present and, under agent/world scope, a foreign episode would have ranked in the top-k) OR k "
         "truncates the eligible set OR a rerank layer actually reordered. Distinct = digest of the whole case.")
-ASSUMPTIONS = ["implementation scores in float32, reference in float64: 1e-6 band at thresholds / ties; exact "
+ASSUMPTIONS = ["T2 stage cache off, except in the warm-cache cases (1 in 5): there the checked call is the second one on the same "
+               "state after the same request under another slice budget (lru and perf bytes cache)",
+               "implementation scores in float32, reference in float64: 1e-6 band at thresholds / ties; exact "
                "differential only on well-separated cases (no score inside a band); reported scores compared at 1e-5",
                "episodes without ts: membership in the exact tier is not asserted (code falls back to the wall clock)",
-               "T2 stage cache disabled here (cache transparency is C05); in-memory backend",
+               "in-memory backend",
                "zone-less timestamps are read in the host zone, which is UTC under ./vcheck (TZ=UTC)",
                "embed-store reader path: tier rules do not apply (tier_sequence=['embed_store']); owner scope, threshold, "
                "k, top-k by (cosine, id), final order, metrics and residual clauses do"]
@@ -187,6 +189,13 @@ def cases(draw):
     if big and own is not None:
         owners = [own] * 6 + [draw(st.sampled_from([o for o in ["A", "B", "world", ""] if o != own]))]
     eps = _big_memory(draw(st.integers(0, 10 ** 6)), now_z, owners) if big else draw(_episodes(now_z, owners=owners))
+    cluster_focus = not big and len(eps) >= 3 and draw(st.sampled_from([False] * 7 + [True]))
+    if cluster_focus:
+        # the cluster tier on its own / first with a small top-m over a memory where many episodes carry a falsy cluster
+        # id ('' / 0 / none: each such episode is a cluster of its own, derived from its id)
+        for e in eps:
+            if draw(st.booleans()):
+                e["aux"] = dict(e.get("aux") or {}, cluster_id=draw(st.sampled_from(["", "", 0])))
     ep_words = [w for e in eps for w in (e.get("text") or "").lower().split()] or world.VOCAB
     graphs = {}
     seam_words = []
@@ -223,6 +232,11 @@ def cases(draw):
     if draw(st.booleans()):
         t2["ranking"] = {"alpha_sim": draw(_W), "beta_recency": draw(_W), "gamma_importance": draw(_W)}
     t2["owner_scope"] = scope
+    if cluster_focus:
+        t2["tiers"] = draw(st.sampled_from([["cluster_semantic"], ["cluster_semantic"], ["cluster_semantic", "exact_semantic"]]))
+        t2["clusters_top_m"] = draw(st.sampled_from([1, 1, 2]))
+        t2["sim_threshold"] = draw(st.sampled_from([0.0, 0.1, -1.0]))
+        t2["k_retrieval"] = draw(st.sampled_from([5, 10, 64]))
     if draw(st.booleans()):
         t2["residual_cap_per_turn"] = draw(st.sampled_from([0, 1, 2, 32]))
     if draw(st.sampled_from([False] * 9 + [True])):
@@ -281,13 +295,22 @@ def cases(draw):
         # edges mostly between episodes the query can hit (positive dot product), else the rerank never fires
         qv = world.BowEncoder().vec(text)
         likely = [e["id"] for e in eps if e.get("vec_full") is not None and sum(x * y for x, y in zip(qv, e["vec_full"])) > 0]
-        likely = sorted(set(likely), key=likely.index)[:6]
+        likely = sorted(set(likely), key=likely.index)[:8]
         gel = draw(world.gel_graphs([e["id"] for e in eps] + (["ghost"] if len(eps) >= 2 else [])))
+        # half of the hybrid cases by construction: the rerank fires inside a top slice (k_max 2-3) that is shorter than
+        # the hit list, i.e. qualifying edges between all likely hits, >= 2 anchors or 2 hops, k and threshold admitting
+        # more hits than k_max -- the untouched tail beyond k_max must survive
+        tail = len(likely) >= 3 and draw(st.booleans())
+        if tail:
+            t2["hybrid"].update({"k_max": draw(st.sampled_from([2, 2, 3])), "use_graph": True, "edge_threshold": draw(st.sampled_from([0.0, 0.1])),
+                                 "anchor_top_m": draw(st.sampled_from([2, 8]))})
+            t2["k_retrieval"] = max(int(t2["k_retrieval"]), draw(st.sampled_from([5, 10])))
+            t2["sim_threshold"] = min(float(t2["sim_threshold"]), draw(st.sampled_from([0.0, 0.1])))
         for i, a in enumerate(likely):
             for b in likely[i + 1:]:
-                if draw(st.booleans()):
+                if tail or draw(st.booleans()):
                     s_, d_ = (a, b) if a <= b else (b, a)
-                    w = draw(st.sampled_from([0.05, 0.2, 0.5, 0.9, 1.0, -0.5]))
+                    w = draw(st.sampled_from([0.5, 0.9, 1.0] if tail else [0.05, 0.2, 0.5, 0.9, 1.0, -0.5]))
                     gel["edges"][f"{s_}\u2192{d_}"] = {"id": f"{s_}\u2192{d_}", "src": s_, "dst": d_, "weight": w, "rel": "coact", "attrs": {}}
     case = {"eps": eps, "graphs": graphs, "t2": t2, "agent": agent, "text": text, "t1_ids": t1_ids, "slice_k": slice_k,
             "gel": gel, "layers": layers, "workers": draw(st.sampled_from([None, None, 2, 3, 4, 8])),
@@ -296,6 +319,10 @@ def cases(draw):
             "gate": draw(st.sampled_from([False] * 5 + [True]))}
     if alias is not None:
         case["alias"] = alias
+    if draw(st.sampled_from([False, False, False, False, True])):
+        # warm stage cache: the same request ran before on this state under another (or the same) slice budget
+        case["warm"] = {"cache": draw(st.sampled_from(["lru", "lru", "bytes"])), "slice_k": draw(st.sampled_from([None, None, 100, 8, 2, 1, 0]))}
+        case["slice_k"] = draw(st.sampled_from([None, 0, 0, 1, 1, 2, 100]))
     if draw(st.sampled_from([False] * 9 + [True])):
         # retrieval straight from an on-disk embed store holding the vectors of the whole index
         case["reader"] = {"shards": draw(st.sampled_from([0, 1, 2, 3])), "norms": draw(st.booleans()),
@@ -392,6 +419,14 @@ def run_t2(case, t2_override=None, tmp=None):
         t2["embed_root"] = root
         if case["reader"].get("batch"):
             t2["reader_batch"] = int(case["reader"]["batch"])
+    warm = case.get("warm")
+    if warm:
+        # stage cache on (it is off otherwise): the checked call comes second on the same state, after a call of the
+        # same request under another slice budget filled the cache
+        t2["cache"] = {"enabled": True}
+        if warm.get("cache") == "bytes":
+            perf["enabled"] = True
+            perf.setdefault("t2", {})["cache"] = {"max_entries": 64, "max_bytes": 1_000_000}
     if perf:
         over["perf"] = perf
     cfg = world.validated_cfg(over)
@@ -406,6 +441,18 @@ def run_t2(case, t2_override=None, tmp=None):
         state["graph"] = copy.deepcopy(case["gel"])
     t1 = SimpleNamespace(graph_deltas=[{"op": "upsert_node", "id": i} for i in case["t1_ids"]], metrics={})
     sd0, id0 = world.store_digest(store), world.index_digest(idx)
+    if warm:
+        if warm.get("slice_k") is None:
+            if hasattr(ctx, "slice_budgets"):
+                del ctx.slice_budgets
+        else:
+            ctx.slice_budgets = {"t2_k": warm["slice_k"]}
+        t2_semantic(ctx, state, case["text"], t1)
+        if case["slice_k"] is None:
+            if hasattr(ctx, "slice_budgets"):
+                del ctx.slice_budgets
+        else:
+            ctx.slice_budgets = {"t2_k": case["slice_k"]}
     res = t2_semantic(ctx, state, case["text"], t1)
     if world.store_digest(store) != sd0 or world.index_digest(idx) != id0:
         raise Violation("t2_semantic modified the graph store or the memory index", case, "mutates")
@@ -691,6 +738,9 @@ def _check_case(case, rec, tmp):
                  (["used<returned"] if want_used < len(hits) else []) + \
                  (["big_memory"] if len(case["eps"]) >= 70 else []) + (["hits>64"] if len(hits) > 64 else []) + (["hits>128"] if len(hits) > 128 else []) + \
                  (["dup_ids_in_index"] if len(by_id) < len(case["eps"]) else []) + \
+                 (["warm_cache=" + case["warm"]["cache"]] if case.get("warm") else []) + \
+                 (["warm_cache&smaller_cap"] if case.get("warm") and cap is not None and (case["warm"]["slice_k"] is None or case["warm"]["slice_k"] > cap) else []) + \
+                 (["cluster_focus"] if R.tiers[:1] == ["cluster_semantic"] and sum(1 for e in R.vis if not (e.get("aux") or {}).get("cluster_id")) >= 2 else []) + \
                  (["gate=on"] if case.get("gate") else []) + (["alias"] if case.get("alias") is not None else []) + \
                  ([f"agent={case['agent']!r}"] if case["agent"] in ("", "a") and scope == "agent" else []) + \
                  (["days=overflow"] if int(t2cfg.get("exact_recent_days", 30)) >= 800000 and "exact_semantic" in R.tiers else []) + \
